@@ -160,6 +160,13 @@ func NewTF(seed int64, nstr int) *Table {
 	return t.finish()
 }
 
+// WithFloat maps one more float token to a chosen value (used by the trace driver for the infinities).
+func (t *Table) WithFloat(tok int, v float64) *Table {
+	t.Floats[tok] = v
+	t.revFlt[v] = tok
+	return t
+}
+
 func (t *Table) Str(i int) string {
 	if i < 1 || i > len(t.Strs) {
 		panic(fmt.Sprintf("conc: string token %d outside pool of %d", i, len(t.Strs)))
